@@ -1986,6 +1986,10 @@ class InventoryTreeTransform(DiskTreeTransform):
         # Now add all their children to the set.
         for parent_trans_id in new_file_id:
             changed_ids.update(self.iter_tree_children(parent_trans_id))
+        # Entries that end up unversioned cannot alter the inventory, and may
+        # not even have a final path (e.g. a name recorded by a merge for a
+        # file that is absent from this tree, inside an absent directory).
+        changed_ids = {t for t in changed_ids if self.final_file_id(t) is not None}
         return sorted(FinalPaths(self).get_paths(changed_ids))
 
     def _generate_inventory_delta(self):
